@@ -30,7 +30,8 @@ CLAIMS = {
     text='Theorems C03_fasta_config_independence / C03_fastq_config_independence: two ARBITRARY configurations (capacity x read script incl. '
          'interrupts x policy) of the same input give, call by call, the same record contents, positions, error fields and end signal '
          '(corollary of the two refinement theorems; no reference run in the statement), and C03_fill_buf_chunking_invisible for the refill loop. '
-         'Record sets: the history theorems (C04) give the same concatenated records for every configuration; additionally pairwise comparison of implementation '
+         'Record sets (C03s.v): two arbitrary seek-free histories (any mixture of single, owned, plain and exact-count set reads) on two arbitrary configurations deliver '
+         'the same contents (prefixes of one another; equal once both reported the end) - corollaries of the exactly-once theorems; additionally pairwise comparison of implementation '
          'traces across 5-7 configurations per input, plus model/implementation comparison of the read-call and grow_to logs.',
     technique='Coq proof (corollary of the refinement theorems for next(); fill_buf lemma) + pairwise differential run across configurations',
     ref='5 C03'),
@@ -49,16 +50,19 @@ CLAIMS = {
          'seeking to the position of any record from any reachable state - in-buffer shortcut or real seek - restores the stream from that record, the '
          'offset invariant position.byte = start + window offset holds in every reachable state, position after a set read = next unread record; C05q.v (FASTQ; 6): '
          'the same, incl. seeking to the invalid record reproduces its error. Tie: seeks to every saved position from random histories, targets inside and '
-         'outside the buffer, judged by the Spec cursor machine.',
+         'outside the buffer, on new readers and on readers a source failure has left behind, judged by the Spec cursor machine; also after errors a position reported after a '
+         'returned record must be that record\'s position in the Spec stream. C05i.v: a new reader never takes the in-buffer shortcut; the first call is resumable after an I/O error with the true line count.',
     technique='Coq proof (positions: corollary of refinement; seeks: history refinement) + differential run with cursor-machine oracle',
     ref='5 C05'),
  'C06': dict(
     text='Theorems: C06s.v (4) - an offset-sanity predicate holds for a new reader and is preserved by next / read_set / seek / set_policy for EVERY policy '
          '(refusing, non-growing, scripted) and EVERY fault script, and no call from a sane state returns a panic outcome (both formats); C06f.v (17) - an I/O error '
          'while refilling is final (reader Finished, later reads report the end), a failed source seek leaves the reader unchanged; the refinement theorems '
-         '(C01/C02/C04) give: every record returned in fault-free histories is a record of the input, in order, no fuel exhaustion. C06f also proves that after a failed '
-         'refill the buffer is empty, so a later seek always reads again (this closed the last known finding). Termination with refusing policies and faults, and '
-         'genuineness after faults, are covered by the run (10 s watchdog, membership oracle). Tie: random inputs incl. binary x faults x refusing/scripted policies x mixed histories with post-error calls, debug build.',
+         '(C01/C02/C04) give: every record returned in fault-free histories is a record of the input, in order. C06t.v / C06tq.v (17): TERMINATION for every policy function, every read/seek '
+         'fault script, every capacity and every history - with loop fuel 2|data|+4 and refill fuel |script|+2 no call ever runs out of fuel (the model\'s "hangs") or panics '
+         '(C06_fa_terminates, C06_fq_terminates, C06_*_history_never_hangs_or_panics; measures: bytes not yet passed, capacity strictly growing at a full buffer). C06f also proves that after a failed '
+         'refill the buffer is empty, so a later seek always reads again; C14p/C14pq: everything returned before the first source failure is what the fault-free run returns. '
+         'Genuineness after faults is covered by the run (membership + position oracles; 10 s watchdog). Tie: random inputs incl. binary x faults x refusing/scripted policies x mixed histories with post-error calls, debug build.',
     technique='Coq invariant proof (sanity preserved for all policies/faults => no panic) + refinement corollaries + fault-injecting differential run with membership oracle',
     ref='5 C06'),
  'C09': dict(
@@ -73,7 +77,9 @@ CLAIMS = {
  'C14': dict(
     text='Theorems C14.v (12) and C14i.v (8), for EVERY reader state and fault script: a read or seek failure of kind k occurred during a call iff that call returns '
          'Io(k) (never the end, never a format error, never a record), it is the only failure of the call; fill_buf returns FillErr k iff a read failed; interrupted '
-         'reads are invisible for fill_buf and for all six entry points (same outcome, corresponding successor state). Tie: a failure injected at every read-call index '
+         'reads are invisible for fill_buf and for all six entry points (same outcome, corresponding successor state). C14p.v / C14pq.v (6): a run whose scripts contain failures is call by call IDENTICAL '
+         '(outcome, set contents, position, reader state) to the run with the scripts cut before the first failure, up to the call that returns the I/O error; with the C04 refinement: the observations '
+         'before the first I/O error are a run of the cursor machine over the Spec stream ("exactly the leading records"). Tie: a failure injected at every read-call index '
          'and at seek calls, random interrupt patterns compared with the interrupt-free run, records before the failure judged by the cursor oracle.',
     technique='Coq structural proofs over event traces (all states, all fault scripts) + fault-injecting differential run',
     ref='5 C14'),
